@@ -349,6 +349,8 @@ def run(prog, chk):
     look_behind(prog, chk, "C15.k", ("Json.cpp",))
     from .server_common import block_reads_on_cursor
     block_reads_on_cursor(prog, chk, "C15.m", "Json::Private", "Json.cpp")
+    from .server_common import cursor_stores_not_null
+    cursor_stores_not_null(prog, chk, "C15.n", "Json::Private", "Json.cpp", required=False)
     parser_entry_resets(prog, chk, "C15.j", "Json::Private", "Json.cpp")
 
 
